@@ -11,7 +11,6 @@ use crate::{
         ViewLayoutStore, ViewMutLayout,
     },
 };
-use rasterize::RGBA;
 use std::{
     cmp::{max, min},
     collections::HashMap,
@@ -331,8 +330,9 @@ impl TerminalRenderer {
         // Second pass
         //
         // Render or characters
-        let mut face = Face::default().with_bg(Some(RGBA::new(1, 2, 3, 255)));
-        let mut cursor = Position::new(123_456, 654_123);
+        // nothing is known about the face and the cursor of the terminal yet
+        let mut face: Option<Face> = None;
+        let mut cursor: Option<Position> = None;
 
         let mut pos = Position::origin();
         while pos.row < self.front.height() {
@@ -359,13 +359,13 @@ impl TerminalRenderer {
                 }
 
                 // update face and cursor
-                if face != new.face {
-                    face = new.face;
-                    term.execute(TerminalCommand::Face(face))?;
+                if face != Some(new.face) {
+                    face = Some(new.face);
+                    term.execute(TerminalCommand::Face(new.face))?;
                 }
-                if cursor != pos {
-                    cursor = pos;
-                    term.execute(TerminalCommand::CursorTo(cursor))?;
+                if cursor != Some(pos) {
+                    cursor = Some(pos);
+                    term.execute(TerminalCommand::CursorTo(pos))?;
                 }
 
                 if matches!(character, ' ') {
@@ -389,15 +389,15 @@ impl TerminalRenderer {
                         // NOTE: erase is not moving cursor
                         term.execute(TerminalCommand::EraseChars(repeats))?;
                     } else {
-                        cursor.col += repeats;
+                        cursor = Some(pos);
                         for _ in 0..repeats {
                             term.execute(TerminalCommand::Char(' '))?;
                         }
                     }
                 } else {
                     term.execute(TerminalCommand::Char(*character))?;
-                    cursor.col += character_width;
                     pos.col += character_width;
+                    cursor = Some(pos);
                 }
             }
             pos.col = 0;
